@@ -119,6 +119,7 @@ enum
     CL_FINE,
     CL_MIXED_SIZES,
     CL_OPEN_REFUSED,
+    CL_ABORT_WHILE_OTHER_IN_STOP,
 };
 
 const VhSpec kSpec = {
@@ -132,7 +133,7 @@ const VhSpec kSpec = {
       "monitor_first_used_in_later_acquisition", "client_holds_region", "abort", "abort_while_worker_blocked", "abort_while_client_mapped",
       "abort_from_other_thread", "trigger_mode", "averaging", "averaging_2_windows", "fault_camera_frame", "fault_storage_append", "fault_start",
       "fault_fired", "fault_while_source_blocked", "shutdown_reinit", "start_while_running", "device_switch", "stream_toggled", "camera_no_frame_returns",
-      "hardware_id_gaps", "pct_schedule", "preemptions", "step_limit_inconclusive", "configure_while_running", "poll_then_continue_without_stop", "edge_preemptions", "frame_sizes_vary_within_acquisition", "device_open_refused_during_configure", nullptr },
+      "hardware_id_gaps", "pct_schedule", "preemptions", "step_limit_inconclusive", "configure_while_running", "poll_then_continue_without_stop", "edge_preemptions", "frame_sizes_vary_within_acquisition", "device_open_refused_during_configure", "abort_from_other_thread_while_first_is_inside_stop", nullptr },
     { "C04 non-trivial: a finite acquisition completed with >=3 wraps of the sink ring AND (sink caught up at a wrap, or source blocked on a full ring, or a monitor lagging >= 1 frame, or write delay > 0)",
       "C05 non-trivial: image bytes % 8 != 0 AND a packet starting right after a wrap or after a partial client consume",
       "C06 non-trivial: >=2 acquisitions AND the monitor registered AND (partial consume, or hold while the ring filled, or first registration in a later acquisition)",
@@ -214,6 +215,7 @@ struct Ctx
     int f_client = -1, f_other = -1;
     bool client_done = false, other_done = true;
     bool in_stop_or_abort = false;
+    bool in_stop_now = false; // client 1 is inside a plain acquire_stop that waits for the acquisition to complete
     // configuration
     StreamCfg cur[2];           // as decoded so far (tokens)
     StreamCfg applied[2];       // last successfully configured
@@ -1246,7 +1248,9 @@ do_stop_now(Ctx& x)
     }
     x.c.trace("client: STOP_NOW (acquire_stop waits for completion)");
     x.in_stop_or_abort = true;
+    x.in_stop_now = true;
     acquire_stop(x.rt);
+    x.in_stop_now = false;
     x.in_stop_or_abort = false;
     bool by_other = x.aborted_current;
     while (by_other && !x.other_done && !x.c.ended)
@@ -1303,13 +1307,29 @@ other_main(void*)
 {
     Ctx& x = *g;
     sleep_ms(0.2f + 0.5f * (float)(x.abort_other_delay % 40));
-    if (x.running && !x.c.ended && !x.in_stop_or_abort) {
+    // (also while the first client thread is blocked inside a plain acquire_stop: the user presses
+    // "abort" while the application waits for a long acquisition to complete)
+    if (x.running && !x.c.ended && (!x.in_stop_or_abort || x.in_stop_now)) {
+        bool concurrent = x.in_stop_now;
         note_abort_context(x);
         x.c.cls(CL_ABORT_OTHER_THREAD);
-        x.c.trace("other thread: ABORT");
+        if (concurrent) {
+            x.c.cls(CL_ABORT_WHILE_OTHER_IN_STOP);
+            x.c.nontrivial(P_C07);
+        }
+        x.c.trace("other thread: ABORT%s", concurrent ? "   (the first client thread is inside acquire_stop)" : "");
         x.aborted_current = true;
         acquire_abort(x.rt);
         x.c.trace("other thread: abort returned");
+        // abort has returned: whatever the other thread is doing, the workers are gone and the devices stopped
+        if (!x.c.ended && workers_alive(x))
+            x.c.fail("C07", "abort-returned-early", concurrent ? "concurrent-with-stop" : "other-thread",
+                     "acquire_abort returned to the second client thread while worker threads of the acquisition are still alive");
+        for (size_t ai : x.cur_acqs) {
+            const AcqRec& a = x.acqs[ai];
+            if (!x.c.ended && a.cam && a.cam->started && !a.cam->closed)
+                x.c.fail("C07", "abort-returned-early", "camera-still-started", "acquire_abort returned while the camera of stream %d is still started", a.stream);
+        }
     }
     x.other_done = true;
 }
@@ -1419,7 +1439,10 @@ client_main(void*)
                                 x.other_done = false;
                                 x.f_other = vsim::spawn(other_main, nullptr, "client-2");
                             }
-                            do_stop_when_done(x);
+                            if ((op.t.d >> 12) & 1)
+                                do_stop_now(x); // the abort arrives while this thread waits inside acquire_stop
+                            else
+                                do_stop_when_done(x);
                             break;
                         case 1: do_stop_now(x); break;
                         default:
